@@ -20,50 +20,22 @@ Definition c64 : cfg := {| ty := int64; pol := pol_plain; lg_neg := None; lg_add
 Example c8_wf : cfg_wf c8. Proof. unfold cfg_wf, c8; cbn. repeat split; lia. Qed.
 Example c64_wf : cfg_wf c64. Proof. unfold cfg_wf, c64; cbn. repeat split; lia. Qed.
 
-(* div_signed_int (checked_int_inlines.hh:1181): -7 / -2 rounded up stores 3 and says V_LT, i.e. "3.5 < 3" *)
-Theorem div_signed_refuted :
-  exists c d x y old sr, cfg_wf c /\ check_overflow (pol c) = true /\ fin (pol c) (ty c) x /\ fin (pol c) (ty c) y /\ y <> 0 /\
-    div_int c d x y old = Some sr /\ ~ ok (pol c) (ty c) d sr (EFrac x y).
-Proof.
-  exists c64, ROUND_UP, (-7), (-2), 0, (3, V_LT).
-  split; [exact c64_wf|]. split; [reflexivity|]. split; [unfold fin; cbn; lia|]. split; [unfold fin; cbn; lia|].
-  split; [lia|]. split; [vm_compute; reflexivity|].
-  intros [C _]. unfold claim in C. cbn [fst snd] in C.
-  change (class_of V_LT) with CNormal in C. change (rel_of V_LT) with RLt in C. cbn in C. lia.
-Qed.
+(* div_signed_int after the fix of the rounding fix-up: the former counterexample -7 / -2 rounded up *)
+Example div_signed_fixed_witness : div_int c64 ROUND_UP (-7) (-2) 0 = Some (4, V_LT).
+Proof. vm_compute. reflexivity. Qed.
 
-(* sub_mul_int (:1612): 0 - 64*2 = -128 is representable in signed char, yet the result is V_LT_INF ("< -128") *)
-Theorem sub_mul_int_refuted :
-  exists c d x y z sr, cfg_wf c /\ check_overflow (pol c) = true /\ fin (pol c) (ty c) x /\ fin (pol c) (ty c) y /\
-    fin (pol c) (ty c) z /\ sub_mul_int c d x y z = Some sr /\ ~ ok (pol c) (ty c) d sr (EInt (z - x * y)).
-Proof.
-  exists c8, ROUND_UP, 64, 2, 0, (-128, V_LT_INF).
-  split; [exact c8_wf|]. split; [reflexivity|]. split; [unfold fin; cbn; lia|]. split; [unfold fin; cbn; lia|].
-  split; [unfold fin; cbn; lia|]. split; [vm_compute; reflexivity|].
-  intros [C _]. unfold claim in C. cbn [fst snd] in C.
-  change (class_of V_LT_INF) with CNormal in C. change (rel_of V_LT_INF) with RLt in C. cbn in C. lia.
-Qed.
+(* sub_mul_int after the fix: 0 - 64*2 = -128 is no longer reported as a negative overflow (the outcome is
+   "unknown", which claims nothing false) *)
+Example sub_mul_fixed_witness : sub_mul_int c8 ROUND_UP 64 2 0 = Some (0, V_UNKNOWN_POS_OVERFLOW).
+Proof. vm_compute. reflexivity. Qed.
 
-(* isqrt_rem (:1533) on a signed type: for from >= 2^(bits-2) the statement q = s + t overflows the type
-   (signed char: 64 + 64); the code then stores 0 for sqrt(64) *)
-Theorem sqrt_signed_refuted :
-  exists c d x old, cfg_wf c /\ check_overflow (pol c) = true /\ fin (pol c) (ty c) x /\ 0 <= x /\ sqrt_int c d x old = None.
-Proof.
-  exists c8, ROUND_UP, 64, 0.
-  split; [exact c8_wf|]. split; [reflexivity|]. split; [unfold fin; cbn; lia|]. split; [lia|]. vm_compute. reflexivity.
-Qed.
+(* isqrt_rem after the fix: no overflow on signed types; the former counterexample and the largest operand *)
+Example sqrt_signed_fixed_witness :
+  sqrt_int c8 ROUND_UP 64 0 = Some (8, V_EQ) /\ sqrt_int c8 ROUND_UP 127 0 = Some (12, V_LT) /\
+  sqrt_int c64 ROUND_DOWN (2 ^ 63 - 1) 0 = Some (3037000499, V_GT).
+Proof. repeat split; vm_compute; reflexivity. Qed.
 
-(* lcm_gcd_exact (checked_inlines.hh:430): abs(min) overflows into a TEMPORARY; with ROUND_DOWN the result word
-   V_GT_SUP ("the destination holds max") is returned although the destination was never written *)
-Theorem lcm_refuted :
-  exists c d x y old sr, cfg_wf c /\ check_overflow (pol c) = true /\ fin (pol c) (ty c) x /\ fin (pol c) (ty c) y /\
-    lcm_int c d x y old = Some sr /\ ~ ok (pol c) (ty c) d sr (EInt (Z.lcm x y)).
-Proof.
-  exists c8, ROUND_DOWN, (-128), 1, 85, (85, V_GT_SUP).
-  split; [exact c8_wf|]. split; [reflexivity|]. split; [unfold fin; cbn; lia|]. split; [unfold fin; cbn; lia|].
-  split; [vm_compute; reflexivity|].
-  intros [C _]. unfold claim in C. cbn [fst snd] in C.
-  change (class_of V_GT_SUP) with CNormal in C. change (rel_of V_GT_SUP) with RGt in C.
-  change (is_ovf V_GT_SUP) with true in C. destruct C as (_ & _ & _ & C).
-  destruct (C eq_refl) as [[C1 _]|[_ C2]]; [discriminate|]. vm_compute in C2. discriminate.
-Qed.
+(* lcm_gcd_exact after the fix: abs(min) overflows under To_Policy and the destination holds what the result says *)
+Example lcm_fixed_witness :
+  lcm_int c8 ROUND_DOWN (-128) 1 85 = Some (127, V_GT_SUP) /\ lcm_int_native c8 ROUND_DOWN (-128) 1 85 = Some (127, V_GT_SUP).
+Proof. split; vm_compute; reflexivity. Qed.
